@@ -66,3 +66,16 @@ Proof.
   rewrite E. apply P1. exact Hi.
 Qed.
 Print Assumptions C10_staged_vs_simple.
+
+(* the presorted fast path of set_index / sort_values (an automatic choice among algorithms): the divisions it reports are
+   truthful exactly under the strict test max_i < min_{i+1}; the relaxed test is refuted *)
+From DX Require Import Divisions MinMax MinMaxProofs.
+Theorem C10_presorted_fast_path_truthful : forall l parts d,
+  stats_ok l parts -> wf_stats l -> presorted_divisions l = Some d -> truthful d parts.
+Proof. exact presorted_truthful. Qed.
+Print Assumptions C10_presorted_fast_path_truthful.
+
+Theorem C10_presorted_touching_refuted : exists l parts d,
+  stats_ok l parts /\ wf_stats l /\ presorted_divisions_touching l = Some d /\ ~ truthful d parts.
+Proof. exact presorted_touching_refuted. Qed.
+Print Assumptions C10_presorted_touching_refuted.
